@@ -460,11 +460,12 @@ class PairedAdapterCutter(PairedEndModifier):
         self.with_adapters += 1
         result = []
         for i, match, read in zip([0, 1], [match1, match2], [read1, read2]):
-            trimmed_read = read
             if self.action == "lowercase":
-                trimmed_read.sequence = trimmed_read.sequence.upper()
+                # Work on a copy, the caller's record stays as it is
+                read = read[:]
+                read.sequence = read.sequence.upper()
 
-            trimmed_read = match.trimmed(trimmed_read)
+            trimmed_read = match.trimmed(read)
             self.adapter_statistics[i][match.adapter].add_match(match)
 
             if self.action == "trim":
